@@ -126,7 +126,7 @@ func (fr *Frame) step(b *ssa.BasicBlock, instr ssa.Instruction, st *State, edgeC
 		mt := in.Map.Type().Underlying().(*types.Map)
 		m := scalarOf(fr.get(in.Map), in.Map.Type())
 		vc.oblige(st, "nil", fr.name("nilmap@"+shortPos(pos)), pos, "assignment to entry in nil map", mkNeq(m, tNull), nil)
-		k := scalarOf(fr.get(in.Key), mt.Key())
+		k := vc.keyTerm(fr.get(in.Key), mt.Key())
 		vc.mapStore(st, m, mt, k, fr.get(in.Value))
 		return st, true
 	case *ssa.Range:
@@ -740,9 +740,6 @@ func (vc *VC) mapValLeaf(st *State, mt *types.Map, m *Term, l Leaf) (string, *Te
 func (vc *VC) initMap(st *State, r *Term, mt *types.Map) {
 	defer vc.withTouch(r)()
 	ks := leafSort(mt.Key())
-	if _, ok := isStruct(mt.Key()); ok {
-		panic(unsupported("map with struct key"))
-	}
 	dk, lk := mapKeys(mt)
 	d := vc.famGet(st, dk, SArr(SRef, SArr(ks, SBool)))
 	vc.famSet(st, dk, mkStore(d, r, mkConstArr(SArr(ks, SBool), tFalse)))
@@ -804,7 +801,7 @@ func (fr *Frame) lookup(in *ssa.Lookup, st *State, pos string) Val {
 	switch mt := in.X.Type().Underlying().(type) {
 	case *types.Map:
 		m := scalarOf(fr.get(in.X), in.X.Type())
-		k := scalarOf(fr.get(in.Index), mt.Key())
+		k := vc.keyTerm(fr.get(in.Index), mt.Key())
 		v, has := vc.mapLoad(st, m, mt, k)
 		if in.CommaOk {
 			return &VTuple{E: []Val{v, &VS{has}}}
@@ -836,7 +833,40 @@ func (vc *VC) mapNext(st *State, it *VIter) Val {
 	}
 	st.heap[it.Visited] = mkStore(vis, k, tTrue)
 	v, _ := vc.mapLoad(st, it.Map, mt, k)
-	return &VTuple{E: []Val{&VS{ok}, &VS{k}, v}}
+	return &VTuple{E: []Val{&VS{ok}, vc.keyVal(k, mt.Key()), v}}
+}
+
+// Struct-typed map keys are represented by one Ref-sorted term built with an (injective) pairing function:
+// skey$T(leaf values...) with projections skey$T#path. Only ground instances of the pairing laws are added.
+func (vc *VC) keyTerm(v Val, kt types.Type) *Term {
+	if _, ok := isStruct(kt); !ok {
+		return scalarOf(v, kt)
+	}
+	var ls []Leaf
+	var ts []*Term
+	walkVal(kt, "", v, func(l Leaf, tm *Term) {
+		ls = append(ls, l)
+		ts = append(ts, tm)
+	})
+	k := vc.nameIfBig(mkApp("skey$"+typeKey(kt), SRef, ts...))
+	for i, l := range ls {
+		vc.assumeGlobal(mkEq(mkApp("skeyproj$"+typeKey(kt)+l.Path, l.Sort, k), ts[i]))
+	}
+	return k
+}
+
+func (vc *VC) keyVal(k *Term, kt types.Type) Val {
+	if _, ok := isStruct(kt); !ok {
+		return &VS{k}
+	}
+	var ts []*Term
+	v := buildVal(kt, "", func(l Leaf) *Term {
+		t := mkApp("skeyproj$"+typeKey(kt)+l.Path, l.Sort, k)
+		ts = append(ts, t)
+		return t
+	})
+	vc.assumeGlobal(mkEq(mkApp("skey$"+typeKey(kt), SRef, ts...), k))
+	return v
 }
 
 // ---------------------------------------------------------------- defers
